@@ -1,12 +1,11 @@
 """C07 - noise ceilings: upper unbeatable, lower leave-one-out and not above it."""
 import itertools
-import math
 
 import numpy as np
 from hypothesis import strategies as st
 
 from vf import core, gen, ref
-from vf.core import SubCheck, Enumeration, Violation, Reject, lib, require, require_close
+from vf.core import SubCheck, Enumeration, Reject, lib, require, require_close
 from vf.props import c07_ref as cref
 
 from rsatoolbox.rdm import RDMs, compare
